@@ -80,6 +80,9 @@ func c18CheckWrite(c c18WriteCase) engine.Result {
 			}
 			copy(in, c18Stream[:c.Len])
 			spw.Reset(wfail)
+			// the failing write reports 0, 188 or 100 bytes together with its error (the library's own
+			// accumulator reports 188 for every packet it refuses)
+			spw.FailN = []int{0, 188, 100}[(wfail+3)%3]
 			w := c18Make(c.Adapter, &spw)
 			desc := func() string {
 				return fmt.Sprintf("%s.Write of %d bytes (write %d), packet write #%d fails", c18Adapters[c.Adapter], c.Len, second+1, wfail)
@@ -211,7 +214,7 @@ func c18JudgeReadFrom(res *engine.Result, data []byte, sr *ref.ScriptedReader, s
 			res.Failf(sig("delivered-after-failed-write"), "%s: want no call after failing call #%d", full(), spw.FailAt)
 		}
 		// both faults happened: the statement does not rank them
-		if err != ref.ErrScriptedWrite && !(rFailed && err == ref.ErrScriptedRead) {
+		if err != ref.ErrScriptedWrite && !(rFailed && err == sr.InjectedErr()) {
 			res.Failf(sig("error"), "%s: want the packet writer's error", full())
 		}
 	case rFailed:
@@ -222,8 +225,8 @@ func c18JudgeReadFrom(res *engine.Result, data []byte, sr *ref.ScriptedReader, s
 		if spw.Calls < lo {
 			res.Failf(sig("packet-dropped"), "%s: %d packets were complete before the reader failed", full(), lo)
 		}
-		if err != ref.ErrScriptedRead {
-			res.Failf(sig("error"), "%s: want the reader's own error", full())
+		if err != sr.InjectedErr() {
+			res.Failf(sig("error"), "%s: want the reader's own error (%v)", full(), sr.InjectedErr())
 		}
 	default:
 		if spw.Calls < complete {
@@ -237,7 +240,9 @@ func c18JudgeReadFrom(res *engine.Result, data []byte, sr *ref.ScriptedReader, s
 			res.Failf(sig("error"), "%s: the stream ends on a packet boundary, want nil", full())
 		}
 	}
-	if n != int64(188*delivered) {
+	if wFailed && spw.FailN > 0 && n == int64(188*delivered+spw.FailN) {
+		// the failing write itself reported bytes: whether they count as delivered is not asserted
+	} else if n != int64(188*delivered) {
 		res.Failf(sig("count"), "%s: %d packets were delivered successfully, want n=%d", full(), delivered, 188*delivered)
 	}
 }
@@ -256,9 +261,18 @@ func c18CheckUniform(c c18UniCase) engine.Result {
 	data := c18Stream[:c.Packets*188+c.Tail]
 	var sr ref.ScriptedReader
 	var spw ref.ScriptedPacketWriter
+	variant := 0
 	run := func(eofData bool, failCall int, failData bool, wfail int) (calls int) {
 		sr = ref.ScriptedReader{Data: data, Chunk: c.Chunk, EOFWithData: eofData, FailCall: failCall, FailWithData: failData}
+		// rotate through the kinds of failing reader / failing writer: sticky or transient error,
+		// the injected error or io.ErrUnexpectedEOF, failing write reporting 0 / 188 / 100 bytes
+		variant++
+		sr.FailOnce = variant%2 == 1
+		if variant%3 == 0 {
+			sr.FailErr = io.ErrUnexpectedEOF
+		}
 		spw.Reset(wfail)
+		spw.FailN = []int{0, 188, 100}[variant%3]
 		w := c18Make(c.Adapter, &spw)
 		var n int64
 		var err error
@@ -355,7 +369,12 @@ func c18TreeBody(adapter, packets, tail int) func(ch *engine.Chooser) engine.Res
 		data := c18Stream[:packets*188+tail]
 		spw := &ref.ScriptedPacketWriter{}
 		spw.ChooseFail(ch, packets)
+		spw.FailN = engine.Pick(ch, "failing-write-reports-bytes", []int{0, 188, 100})
 		sr := &ref.ScriptedReader{Data: data, Ch: ch, Faults: true, Align: 188}
+		sr.FailOnce = ch.Bool("reader-error-is-transient")
+		if ch.Bool("reader-error-is-io.ErrUnexpectedEOF") {
+			sr.FailErr = io.ErrUnexpectedEOF
+		}
 		w := c18Make(adapter, spw)
 		var n int64
 		var err error
@@ -449,7 +468,7 @@ func init() {
 			extra := p == 4 || t == 94
 			scen = append(scen, &c18Tree{Tree: engine.Tree{
 				Name: fmt.Sprintf("readfrom-tree-%dp+%d", p, t),
-				Rule: fmt.Sprintf("ReadFrom through %s over a stream of %d packets + %d bytes with the scripted environment: first choice = failing packet write (none, index 0..%d), then at every Read the amount (all that fits, 1, half, up to the next 188-boundary of the stream, +1, -1), a fault (none, error without data, error together with the data) and, with the last byte, EOF separate / attached; deviations from the all-default run <= 6 (thorough 8); same oracle as readfrom-uniform-chunks; non-trivial = execution with at least one deviation", c18Adapters[(p+t)%4], p, t, p-1),
+				Rule: fmt.Sprintf("ReadFrom through %s over a stream of %d packets + %d bytes with the scripted environment: first choice = failing packet write (none, index 0..%d), then at every Read the amount (all that fits, 1, half, up to the next 188-boundary of the stream, +1, -1), a fault (none, error without data, error together with the data; the error sticky or transient, the injected error or io.ErrUnexpectedEOF; a failing packet write reporting 0, 188 or 100 bytes) and, with the last byte, EOF separate / attached; deviations from the all-default run <= 6 (thorough 8); same oracle as readfrom-uniform-chunks; non-trivial = execution with at least one deviation", c18Adapters[(p+t)%4], p, t, p-1),
 				Bound: func(r *engine.Run) int {
 					if r.Thorough() {
 						return 8
